@@ -84,6 +84,14 @@ def run(ctx):
               "order is C, then H, then alphabetical by symbol; isotopes of one symbol by mass number",
               f"out of order: {bad[:3]}", s_key, sample=[ident(I, a) for a in order[:12]])
 
+    # the same without carbon: hydrogen still comes first (the property's convention: C first, H second, the rest alphabetically)
+    noC = [a for a in U if ident(I, a)[0] != "C"]
+    order2 = [p[1] for p in conv({a: sp.Integer(1) for a in noC})]
+    seq2 = [spec(a) for a in order2]
+    bad2 = [(x, y) for x, y in zip(seq2, seq2[1:]) if x > y]
+    ctx.check(not bad2 and len(order2) == len(noC), "R3", "without carbon: H first, then alphabetical by symbol",
+              f"out of order: {bad2[:3]}", s_key, sample=[ident(I, a) for a in order2[:8]])
+
     # ---- R1/R2/R4 on formulas ---------------------------------------------------------------
     rng = random.Random(ctx.seed)
     nperm = 40 if ctx.thorough else 6
@@ -137,6 +145,13 @@ def run(ctx):
     hg, hf = I.getattr(grp, "hill"), I.getattr(flat, "hill")
     ctx.check(struct(hg) == struct(hf), "R2", "a single counted group (X Y2)3 has the Hill form of X3 Y6",
               f"{_s(struct(hg), 200)} vs {_s(struct(hf), 200)}", s_hill)
+    # a flat formula already in Hill order but with an atom written twice in a row is still merged
+    Hh = [a for a in U if ident(I, a) == ("H", 0, 0)][0]
+    Cc = [a for a in U if ident(I, a) == ("C", 0, 0)][0]
+    rep = I.call(fm, [[(sp.Integer(1), Cc), (sp.Integer(3), Hh), (sp.Integer(1), Hh)]], {})
+    one = I.call(fm, [{Cc: sp.Integer(1), Hh: sp.Integer(4)}], {})
+    ctx.check(struct(I.getattr(rep, "hill")) == struct(I.getattr(one, "hill")), "R2", "C H3 H has the Hill form of C H4 (adjacent repeats are merged)",
+              f"{_s(struct(I.getattr(rep, 'hill')), 200)}", s_hill)
     # an atom present with count zero stays in the Hill form (the counts are *exactly* those of the formula)
     zero = I.call(fm, [[(sp.Integer(0), U[0]), (sp.Integer(2), U[1]), (sp.Integer(1), U[-1])]], {})
     dict_eq(ctx, "R1", "Hill form keeps an atom whose count is zero", I.getattr(I.getattr(zero, "hill"), "atoms"),
@@ -150,5 +165,5 @@ def run(ctx):
     got_fine = I.getattr(I.getattr(I.call(fm, [dict(fine)], {}), "hill"), "atoms")
     ctx.check(isinstance(got_fine, dict) and set(got_fine) == set(fine) and all(sp.sympify(got_fine[a]) == fine[a] for a in fine), "R1",
               "Hill form keeps very small, very large and many-digit counts exactly", f"counts {_s(got_fine)} instead of {_s(fine)}", s_hill)
-    ctx.floor("R1", 7); ctx.floor("R2", 14); ctx.floor("R3", 1); ctx.floor("R4", 3)
+    ctx.floor("R1", 7); ctx.floor("R2", 15); ctx.floor("R3", 2); ctx.floor("R4", 3)
     ctx.unit("functions_inlined", len(set(I.calls)))
